@@ -7,7 +7,9 @@ import (
 
 	"github.com/expr-lang/expr"
 	"github.com/go-kid/ioc/app"
+	cd "github.com/go-kid/ioc/component_definition"
 	"github.com/go-kid/ioc/configure/loader"
+	"github.com/go-kid/ioc/container/processors"
 	"github.com/go-playground/validator/v10"
 
 	"verif/internal/core"
@@ -199,11 +201,54 @@ func c18ExprOne(c *core.Ctx, cs c18ExprCase, types map[string]reflect.Type) {
 // ---- validation
 
 type c18ValCase struct {
-	Kind string `json:"kind"` // var expr struct
+	Kind string `json:"kind"` // var expr struct user
 	Typ  string `json:"type"` // int string bool
 	Text string `json:"text"` // the value text in the tag (or the expression)
 	Cons string `json:"constraint"`
+	// Binder (kind user): class and Order of the user processor that binds the user-defined
+	// configuration tag - always one that runs before the built-in validation
+	Binder string `json:"binder,omitempty"`
 }
+
+// user-defined configuration tag `cfg:"<key>,validate=..."`: a tag scanner plus a binder
+type c18Scanner struct {
+	processors.DefaultTagScanDefinitionRegistryPostProcessor
+}
+
+func (*c18Scanner) Naming() string { return "zz-c18scanner" }
+
+type c18Binder struct {
+	processors.DefaultInstantiationAwareComponentPostProcessor
+	vals map[string]any
+}
+
+func (b *c18Binder) PostProcessAfterInstantiation(any, string) (bool, error) { return true, nil }
+func (b *c18Binder) PostProcessProperties(props []*cd.Property, _ any, _ string) ([]*cd.Property, error) {
+	for _, p := range props {
+		if p.Tag != "cfg" {
+			continue
+		}
+		if v, ok := b.vals[p.TagVal]; ok {
+			if err := p.Unmarshall(v); err != nil {
+				return nil, err
+			}
+		}
+	}
+	return nil, nil
+}
+
+type c18BinderOrdered struct {
+	c18Binder
+	o int
+}
+
+func (b *c18BinderOrdered) Order() int { return b.o }
+
+type c18BinderPriority struct {
+	c18BinderOrdered
+}
+
+func (b *c18BinderPriority) Priority() {}
 
 func c18Valid(c *core.Ctx) {
 	vals := []struct{ typ, text string }{
@@ -216,14 +261,26 @@ func c18Valid(c *core.Ctx) {
 	gen := func(yield func(c18ValCase) bool) {
 		for _, v := range vals {
 			for _, k := range cons {
-				if !yield(c18ValCase{"var", v.typ, v.text, k}) {
+				if !yield(c18ValCase{Kind: "var", Typ: v.typ, Text: v.text, Cons: k}) {
 					return
+				}
+			}
+		}
+		for _, v := range vals {
+			if v.text == "" {
+				continue
+			}
+			for _, k := range cons {
+				for _, b := range []string{"ordered:-5", "ordered:1", "ordered:7", "priority:0", "priority:1000"} {
+					if !yield(c18ValCase{Kind: "user", Typ: v.typ, Text: v.text, Cons: k, Binder: b}) {
+						return
+					}
 				}
 			}
 		}
 		for _, e := range []string{"${n1}-${n1}", "${n1}+${n2}", "${n1}*0", "${n2}-${n1}", "(${n1}+${n2})*2"} {
 			for _, k := range []string{"gt=0", "required", "min=1", "max=2", "eq=3", "ne=0"} {
-				if !yield(c18ValCase{"expr", "int", e, k}) {
+				if !yield(c18ValCase{Kind: "expr", Typ: "int", Text: e, Cons: k}) {
 					return
 				}
 			}
@@ -231,7 +288,7 @@ func c18Valid(c *core.Ctx) {
 		for _, a := range []string{"", "abc", "abcdef"} {
 			for _, n := range []string{"0", "3", "7"} {
 				for _, k := range []string{"required|required", "min=3|gt=0", "len=3|max=5", "omitempty,max=3|ne=3"} {
-					if !yield(c18ValCase{"struct", a + "|" + n, "", k}) {
+					if !yield(c18ValCase{Kind: "struct", Typ: a + "|" + n, Cons: k}) {
 						return
 					}
 				}
@@ -254,8 +311,9 @@ func c18Valid(c *core.Ctx) {
 			}()
 			reject = f() != nil
 		}
+		var extra []any
 		switch cs.Kind {
-		case "var", "expr":
+		case "var", "expr", "user":
 			text := cs.Text
 			if cs.Kind == "expr" {
 				r, err := expr.Eval(c18Subst(cs.Text, c18Cfgs[0]), nil)
@@ -285,6 +343,20 @@ func c18Valid(c *core.Ctx) {
 			if text == "" {
 				tag = fmt.Sprintf(`value:"${nokey:},required=false,validate=%s"`, cs.Cons)
 			}
+			if cs.Kind == "user" {
+				tag = fmt.Sprintf(`cfg:"the.key,validate=%s"`, cs.Cons)
+				sc := &c18Scanner{}
+				sc.NodeType, sc.Tag, sc.Required = cd.PropertyTypeConfiguration, "cfg", true
+				var order int
+				cls := strings.SplitN(cs.Binder, ":", 2)
+				fmt.Sscan(cls[1], &order)
+				bo := c18BinderOrdered{c18Binder{vals: map[string]any{"the.key": bound}}, order}
+				if cls[0] == "priority" {
+					extra = []any{sc, &c18BinderPriority{bo}}
+				} else {
+					extra = []any{sc, &bo}
+				}
+			}
 			h = reflect.New(reflect.StructOf([]reflect.StructField{{Name: "X", Type: types[cs.Typ], Tag: reflect.StructTag(tag)}}))
 		case "struct":
 			av := strings.SplitN(cs.Typ, "|", 2)
@@ -307,15 +379,23 @@ func c18Valid(c *core.Ctx) {
 			c.Outcome("outside-domain(ill-typed constraint)")
 			return
 		}
-		o := scen.Start(scen.StartSpec{Ch: envx.Fixed("", nil), Comps: []any{h.Interface()}, Opts: []app.SettingOption{app.SetConfigLoader(loader.NewRawLoader([]byte(doc)))}})
+		o := scen.Start(scen.StartSpec{Ch: envx.Fixed("", nil), Comps: append([]any{h.Interface()}, extra...), Opts: []app.SettingOption{app.SetConfigLoader(loader.NewRawLoader([]byte(doc)))}})
 		c.S.Evaluations++
 		c.S.Programs++
 		c.S.States++
 		c.S.Transitions++
+		if cs.Kind == "user" && o.Err == nil && !reflect.DeepEqual(h.Elem().Field(0).Interface(), bound) {
+			c.Outcome("user-binding-lost")
+			c.Report(key, "wrong-value", fmt.Sprintf("field bound by a user processor (%s) holds %#v after the start, the binder set %#v", cs.Binder, h.Elem().Field(0).Interface(), bound), cs)
+			return
+		}
 		if reject {
 			c.S.Nontrivial++
 		}
 		desc := fmt.Sprintf("%s validation, bound value %#v, constraint %q", cs.Kind, bound, cs.Cons)
+		if cs.Kind == "user" {
+			desc += " (user-defined configuration tag bound by a user processor, " + cs.Binder + ")"
+		}
 		switch {
 		case o.Panic != "" || o.Abort != "":
 			c.Outcome("panic")
